@@ -25,7 +25,7 @@ PID = 'C18'
 VARS = ['a', 'b', 'c']
 NAMES = ['x', 'y', 'z']
 STRS = ['a', 'b', 'B', 'ab', 'ba', '', 'c d']
-PSHAPES = ['copy', 'filter', 'union', 'agg']
+PSHAPES = ['copy', 'filter', 'union', 'agg', 'aggunion']
 CONSUMERS = ['final', 'map', 'group', 'join', 'chain', 'twice']
 PLANS = ['', 'with', 'nowith', 'ground', 'noinject']
 
@@ -71,7 +71,7 @@ def program(case):
   lines = ['@Engine("sqlite");']
   for r in case['rows']:
     lines.append('D(%s);' % ', '.join(lit(v) for v in r))
-  if case['pshape'] == 'union':
+  if case['pshape'] in ('union', 'aggunion'):
     for r in case['rows2']:
       lines.append('E(%s);' % ', '.join(lit(v) for v in r))
   deno = ''
@@ -96,6 +96,12 @@ def program(case):
     lines.append('P(%s) :- E(%s);' % (head_args(case, vs), ', '.join(vs)))
   elif ps == 'agg':
     lines.append('P(%s) distinct%s :- %s;' % (head_args(case, vs, agg_last=True), deno, dbody))
+  elif ps == 'aggunion':     # multi-body aggregation (rewritten through an auxiliary predicate by the parser)
+    if case.get('or_form'):
+      lines.append('P(%s) distinct%s :- %s | E(%s);' % (head_args(case, vs, agg_last=True), deno, dbody, ', '.join(vs)))
+    else:
+      lines.append('P(%s) distinct%s :- %s;' % (head_args(case, vs, agg_last=True), deno, dbody))
+      lines.append('P(%s) distinct :- E(%s);' % (head_args(case, vs, agg_last=True), ', '.join(vs)))
   plan = {'': None, 'with': '@With(P);', 'nowith': '@NoWith(P);', 'ground': '@Ground(P);',
           'noinject': '@NoInject(P);'}[case['plan']]
   if plan:
@@ -135,7 +141,9 @@ def p_rows(case):
     rows = [r for r in rows if r[0] >= case['t']]
   elif ps == 'union':
     rows = rows + [tuple(r) for r in case['rows2']]
-  elif ps == 'agg':
+  elif ps in ('agg', 'aggunion'):
+    if ps == 'aggunion':
+      rows = rows + [tuple(r) for r in case['rows2']]
     groups = {}
     for r in rows:
       groups.setdefault(r[:-1], []).append(r[-1])
@@ -216,8 +224,9 @@ def gen_case(r, k_mode='all'):
   if r.random() < 0.35 and nrows > 1:        # duplicate rows / shared key prefixes
     case['rows'][-1] = list(case['rows'][0])
   case['pshape'] = r.choice(PSHAPES)
-  case['named'] = True if case['pshape'] == 'agg' else r.random() < 0.4
-  if case['pshape'] == 'union':
+  case['named'] = True if case['pshape'] in ('agg', 'aggunion') else r.random() < 0.4
+  case['or_form'] = r.random() < 0.5
+  if case['pshape'] in ('union', 'aggunion'):
     case['rows2'] = [row() for _ in range(r.choice([1, 2, 3]))]
   if case['pshape'] == 'filter':
     case['t'] = r.choice([-2, 0, 1, 3, 9])
